@@ -71,6 +71,29 @@ Proof.
   apply efficiencies_in_unit; assumption.
 Qed.
 
+(* closed form of the two generated spectra on the support (also right when the raw value happens to be zero) *)
+Lemma spectrum_on_support ws wi s :
+  invalid_frequencies ws wi s = false -> threshold s <= pump_spectral_amplitude (ws + wi) s ->
+  spectrum_jsi ws wi s = jsi_normalization ws wi s / 1 *
+    ((pump_spectral_amplitude (ws + wi) s * pm_re s ws wi) ^ 2 + (pump_spectral_amplitude (ws + wi) s * pm_im s ws wi) ^ 2) /\
+  spectrum_jsi_singles ws wi s = jsi_singles_normalization ws wi s / 1 * (pump_spectral_amplitude (ws + wi) s ^ 2 * pm_singles s ws wi).
+Proof.
+  intros Hi Ht. unfold spectrum_jsi, spectrum_jsi_singles, jsa_raw, jsi_singles_raw. rewrite Hi.
+  destruct (bool_dec false true) as [F|_]; [discriminate F|].
+  destruct (Rlt_dec _ (threshold s)) as [L|_]; [lra|]. cbn [fst snd].
+  set (a := pump_spectral_amplitude (ws + wi) s). split.
+  - destruct (bool_dec _ true) as [E|_]; [|unfold Rdiv; rewrite Rinv_1; ring].
+    apply andb_true_iff in E. destruct E as [E1 E2].
+    destruct (Req_EM_T (a * (pm_re s ws wi / 1)) 0) as [Z1|]; [|discriminate E1].
+    destruct (Req_EM_T (a * (pm_im s ws wi / 1)) 0) as [Z2|]; [|discriminate E2].
+    replace (a * pm_re s ws wi) with (a * (pm_re s ws wi / 1)) by (unfold Rdiv; rewrite Rinv_1; ring).
+    replace (a * pm_im s ws wi) with (a * (pm_im s ws wi / 1)) by (unfold Rdiv; rewrite Rinv_1; ring).
+    rewrite Z1, Z2. ring.
+  - destruct (Req_EM_T _ 0) as [Z|_]; [|unfold Rdiv; rewrite Rinv_1; ring].
+    replace (a ^ 2 * pm_singles s ws wi) with (a ^ 2 * (pm_singles s ws wi / 1)) by (unfold Rdiv; rewrite Rinv_1; ring).
+    rewrite Z. ring.
+Qed.
+
 (* structure of the ratio the no-diffraction clause is about: on the support the envelope, the pump power, deff and every
    common constant cancel; what remains is sec(theta_i) · Wi² · |pm|² / pm_singles *)
 Lemma ratio_structure ws wi s :
